@@ -144,7 +144,7 @@ func Overlay(repoDir, harnessDir, pkg string, native bool) (map[string][]byte, e
 			if strings.Contains(string(b), "vdoc(") {
 				needDoc = true
 			}
-			if strings.Contains(string(b), "vboltbucket(") {
+			if strings.Contains(string(b), "vboltbucket(") || strings.Contains(string(b), "vboltdb(") {
 				needBolt = true
 			}
 			ov[filepath.Join(pkgDir, e.Name())] = b
